@@ -202,6 +202,7 @@ def run(tier, seed, argv):
                       hsdp="replicate 2 (thorough 3) x shard 1..2", steps="T=2")
     rep.assumptions = ["FSDP flat-parameter metadata (shape, numel, start/end of the local shard) is an input built by the harness; compile_fsdp_parameter_metadata reads FSDP internals and is outside the model",
                        "oracle sub-tensors follow the documented recovery (maximal slabs; minimality etc. are C15's subject)", "as C01/C06: real arithmetic, recording stubs, lock-step simulator"]
+    rep.validate_standin(6 if tier == "quick" else 24)
     rep.absorb("fsdp", par.run_jobs(jobs, chunk=4))
     return rep.finish("checks.c07")
 
